@@ -69,6 +69,18 @@ fn cursor_routes<S: ReadableShape + Dump>(prefix: &str, shp: &[u8], shx: &[u8], 
         format!("{}/all/noidx/cursor", prefix),
         ShapeReader::new(c(shp)).map_err(e).and_then(|r| r.read_as::<S>().map(|v| v.iter().map(|s| s.d()).collect()).map_err(e)),
     ));
+    // both reading routes of the property on ONE reader: every record by index, then all of them in sequence
+    out.push((
+        format!("{}/nth-then-seq/idx/cursor", prefix),
+        ShapeReader::with_shx(c(shp), c(shx)).map_err(e).and_then(|mut r| {
+            nth_all(n, |i| r.read_nth_shape_as::<S>(i))?;
+            collect(r.iter_shapes_as::<S>(), n)
+        }),
+    ));
+    out.push((
+        format!("{}/all/idx/cursor", prefix),
+        ShapeReader::with_shx(c(shp), c(shx)).map_err(e).and_then(|r| r.read_as::<S>().map(|v| v.iter().map(|s| s.d()).collect()).map_err(e)),
+    ));
     out
 }
 
@@ -147,12 +159,15 @@ fn one_case(t: i32, i: usize, ctx: &Ctx, rep: &mut Report, dir: &str) {
         Some(2_200_000)
     } else if ctx.thorough && t == 13 && i == 9 {
         Some(700_000)
+    } else if matches!(t, 13 | 15 | 18 | 23 | 25 | 28 | 31) && i == 9 {
+        // every Z / M bearing multi-vertex type: one part beyond 2^16 vertices
+        Some(66_000 + 17 * t as usize)
     } else {
         None
     };
     if let Some(sz) = huge {
         shapes = vec![gen::shape(t, &mut r, &Cfg::plain(1, 2)), gen::shape_exact(t, &mut r, &Cfg::plain(1, 2), 1, sz), gen::shape(t, &mut r, &Cfg::plain(1, 2))];
-        rep.count("huge_record_cases(> 16 MiB)", 1);
+        rep.count("huge_record_cases(> 2^16 vertices; the 2-D multipoint > 16 MiB)", 1);
     }
     if i == 0 && gen::is_polygon(t) {
         shapes.insert(r.usize_in(0, shapes.len()), sign_lost_polygon(t));
@@ -179,6 +194,10 @@ fn one_case(t: i32, i: usize, ctx: &Ctx, rep: &mut Report, dir: &str) {
     let mut shx = Cursor::new(Vec::new());
     // writing route: write_shape one by one / the consuming bulk route write_shapes
     let bulk = i % 6 == 1;
+    let mid_finalize: Option<usize> = if !bulk && i % 5 == 2 && n >= 2 { Some(1 + i % (n - 1)) } else { None };
+    if mid_finalize.is_some() {
+        rep.count("sequences_with_a_finalize_in_the_middle", 1);
+    }
     rep.count(if bulk { "written_through:write_shapes(bulk)" } else { "written_through:write_shape" }, 1);
     let w = panicmon::catch(|| -> Result<(), Error> {
         let mut w = ShapeWriter::with_shx(&mut shp, &mut shx);
@@ -188,8 +207,12 @@ fn one_case(t: i32, i: usize, ctx: &Ctx, rep: &mut Report, dir: &str) {
                 w.write_shapes(&typed)
             });
         }
-        for s in &shapes {
+        for (k, s) in shapes.iter().enumerate() {
             write_one(&mut w, s)?;
+            // every 5th sequence: an explicit finalize after the k-th shape as well
+            if mid_finalize == Some(k + 1) {
+                w.finalize()?;
+            }
         }
         if finalize {
             w.finalize()?;
